@@ -6,13 +6,15 @@ import json, os, subprocess, sys
 from pathlib import Path
 
 env = dict(os.environ, GOFLAGS="-mod=mod", GOPROXY="off", GOSUMDB="off", GOTOOLCHAIN="local")
-root = Path("/verif/seeded")
+VROOT = Path(__file__).resolve().parent.parent
+REPO = os.environ.get("VERIF_REPO", "/repo")
+root = VROOT / "seeded"
 ids = sys.argv[1:] or sorted(p.name for p in root.iterdir() if p.is_dir())
 out_path = root / "DETECTION.json"
 res = json.loads(out_path.read_text()) if out_path.exists() else {}
 
 
-def sh(cmd, cwd="/repo", timeout=3000):
+def sh(cmd, cwd=REPO, timeout=3000):
     p = subprocess.run(cmd, shell=True, cwd=cwd, env=env, stdout=subprocess.PIPE, stderr=subprocess.STDOUT, text=True, timeout=timeout)
     return p.returncode, p.stdout
 
@@ -33,20 +35,24 @@ for sid in ids:
         print(sid, "does not apply on", head)
         continue
     try:
-        sh("git apply %s %s" % ("--3way" if how == "3way" else "", patch))
+        rc, out = sh("git apply %s %s" % ("--3way" if how == "3way" else "", patch))
+        if rc != 0 or "U" in "".join(l[:2] for l in sh("git status --porcelain")[1].splitlines()):
+            res[sid] = {"head": head, "applies": False}
+            print(sid, "does not apply on", head, "(3-way conflict)")
+            continue
         rc, out = sh("go build ./...")
         if rc != 0:
             res[sid] = {"head": head, "applies": True, "builds": False}
             print(sid, "applies but does not build")
             continue
-        rc, out = sh("./check %s --tier quick" % prop, cwd="/verif")
+        rc, out = sh("./check %s --tier quick" % prop, cwd=str(VROOT))
         line = [l for l in out.splitlines() if l.startswith(prop + " ")]
         viol = [l for l in out.splitlines() if l.startswith("VIOLATION")]
         res[sid] = {"head": head, "applies": True, "how": how, "check": prop, "exit": rc, "summary": (line or [""])[-1][:200], "violations": len(viol),
                     "no_failing_input": any("no-failing-input-found" in v for v in viol)}
         print(sid, rc, (line or [""])[-1][:150])
     finally:
-        sh("git checkout -- . && git reset -q")
+        sh("git reset -q; git checkout -- .")
         sh("git stash drop -q 2>/dev/null; true")
     out_path.write_text(json.dumps(res, indent=1, sort_keys=True) + "\n")
 assert sh("git status --porcelain")[1].strip() == "", "repo left dirty!"
